@@ -1617,3 +1617,6 @@ def run(ctx):
     part_inplace(ctx, cuqi, thorough)
     part_layouts(ctx, cuqi, gs, thorough)
     part_shape_maps(ctx, cuqi, thorough)
+    # session-3 extension streams (harness/props/c13_ext.py)
+    from harness.props import c13_ext
+    c13_ext.run_all(ctx, cuqi, thorough)     # part_scales, part_klhist, part_stephist
